@@ -235,7 +235,7 @@ def wrap_import(rng, src, syntax):
 # running many compile jobs fast, and shrinking
 # --------------------------------------------------------------------------------------------
 
-def run_many(pool, jobs, timeout=2.0, batch=40):
+def run_many(pool, jobs, timeout=2.0, batch=40, no_confirm=None):
     """Answers for `jobs`, in order.  Jobs travel in `seq` batches (one runner thread runs the jobs of
     a batch one after another; a panic is caught per job by the runner).  A batch that does not come
     back complete (hang, abort of the worker) is re-run job by job, so that the hang/abort is
@@ -253,9 +253,17 @@ def run_many(pool, jobs, timeout=2.0, batch=40):
         else:
             res[a:b] = rs
     if redo:
-        single = pool.map([jobs[i] for i in redo], timeout=timeout, confirm=True)
+        single = pool.map([jobs[i] for i in redo], timeout=timeout, confirm=False)
         for i, r in zip(redo, single):
             res[i] = r
+        # a hang/abort is confirmed alone with the 10x budget — except for programs `no_confirm` accepts
+        # (programs with loops of their own: the caller decides about those by other means)
+        need = [i for i in redo if res[i].get("status") in ("timeout", "abort") and not (no_confirm and no_confirm(jobs[i]))]
+        if need:
+            again = pool.map([jobs[i] for i in need], timeout=timeout * 10, confirm=False)
+            for i, r in zip(need, again):
+                r["first_attempt"] = res[i].get("status")
+                res[i] = r
     return res
 
 
@@ -290,3 +298,51 @@ def ddmin(text, still_fails, max_calls=400):
     if len(cur) == 1 and calls[0] < max_calls and test(""):
         cur = ""
     return cur
+
+
+# --------------------------------------------------------------------------------------------
+# built-in calls with hostile arguments (evaluator-level totality)
+# --------------------------------------------------------------------------------------------
+
+GLOBAL_FUNCS = """abs adjust-color adjust-hue alpha append blue call ceil change-color comparable complement content-exists darken
+desaturate feature-exists fade-in fade-out floor function-exists get-function global-variable-exists grayscale green hsl hsla hue hwb
+ie-hex-str if index inspect invert is-bracketed is-superselector join keywords length lighten lightness list-separator map-get
+map-has-key map-keys map-merge map-remove map-values max min mix mixin-exists nth opacify opacity percentage quote random red rgb rgba
+round saturate saturation scale-color selector-append selector-extend selector-nest selector-parse selector-replace selector-unify
+set-nth simple-selectors str-index str-insert str-length str-slice to-lower-case to-upper-case transparentize type-of unique-id unit
+unitless unquote variable-exists zip calc clamp min max""".split()
+
+MODULE_FUNCS = {
+    "math": "abs acos asin atan atan2 ceil clamp compatible cos div floor hypot is-unitless log max min percentage pow random round sin sqrt tan unit".split(),
+    "string": "index insert length quote slice split to-lower-case to-upper-case unique-id unquote".split(),
+    "list": "append index is-bracketed join length nth separator set-nth slash zip".split(),
+    "map": "deep-merge deep-remove get has-key keys merge remove set values".split(),
+    "color": "adjust alpha blackness blue change complement grayscale green hue hwb ie-hex-str invert lightness mix red saturation scale whiteness".split(),
+    "selector": "append extend is-superselector nest parse replace simple-selectors unify".split(),
+    "meta": "call calc-args calc-name content-exists feature-exists function-exists get-function global-variable-exists inspect keywords mixin-exists type-of variable-exists".split(),
+}
+
+HOSTILE_ARGS = ["0", "-1", "1", "2", "0.5", "-0.5", "1e10", "1e100", "1e308", "1e400", "-1e400", "1e-400", "9223372036854775807",
+                "9223372036854775808", "18446744073709551616", "4294967296", "2147483648", "-2147483649", "1/0", "-1/0", "0/0",
+                "math.div(1,0)", "math.div(0,0)", "(0/0)", "1px", "1em", "1%", "1px*1px", "math.div(1px,1em)", "1x", "1deg", "1turn", "1s",
+                "1dpi", "\"\"", "\"a\"", "\"abc\"", "\"\\0\"", "\"\u00e9\u00e9\"", "\"\U0001f600\"", "a", "null", "true", "false", "()", "(1,)",
+                "(1 2 3)", "[1 2]", "(a: 1)", "(a: (b: 2))", "(1: 2)", "red", "#fff", "#12345678", "transparent", "rgba(1,2,3,.5)",
+                "hsl(1e10, 1%, 1%)", "\">\"", "\"a >\"", "\"> a\"", "\"&\"", "\":is(>)\"", "\"a, b\"", "\"%p\"", "\"\"", "\"a[\"",
+                "\"::x\"", "\":not()\"", "\"a:nth-child(2n+1 of b)\"", "$a...", "$k: 1", "$undefined", "get-function(\"abs\")",
+                "calc(1px + 1%)", "calc(1 + a)", "min(1px, 1em)", "1 2", "1, 2", "var(--x)", "-", "+", "/", "1 +", "#{1}", "\"#{1/0}\"",
+                "nth((), 1)", "str-slice(\"a\", 1e100)", "$weight: 1e9%", "$lightness: -1e9%", "$alpha: 1e9", "$hue: 1e30deg"]
+
+
+def builtin_call(rng):
+    if rng.random() < 0.45:
+        mod = rng.choice(list(MODULE_FUNCS))
+        head = f"@use \"sass:{mod}\";"
+        fn = f"{mod}.{rng.choice(MODULE_FUNCS[mod])}"
+    else:
+        head = "@use \"sass:math\";"
+        fn = rng.choice(GLOBAL_FUNCS)
+    args = ", ".join(rng.choice(HOSTILE_ARGS) for _ in range(rng.choice([0, 1, 1, 2, 2, 3, 4])))
+    ctx = rng.choice(["a{b:%s}", "$a:%s;a{b:inspect($a)}", "a{b:1+%s}", "@debug %s;", "a{b:\"#{%s}\"}", "@media (x: %s){a{b:c}}",
+                      "a{b:%s*2px}", "@if %s{a{b:c}}", "@each $i in %s{a{b:$i}}", "@for $i from 1 through %s{}", "a{b:nth(%s, 1)}",
+                      "a{#{%s}:c}", "#{%s}{b:c}", "a{b:c !important %s}"])
+    return head + ctx % f"{fn}({args})"
